@@ -22,7 +22,7 @@ BUDGETS = {'C13': (40, 900, 200)}
 LEVELS = {'C13': 'exploration'}
 PROBES = {'C13': ['producer_blocked_in_put', 'stop_while_producer_blocked', 'stop_while_paused', 'paused',
                   'task_exception', 'source_exception', 'concurrency_changed', 'stop_called', 'app_variant',
-                  'stop_with_item_queued', 'ended_paused']}
+                  'stop_with_item_queued', 'ended_paused', 'action_before_first_producer_step']}
 INFO = {'C13': {
     'rule': 'workload = (K items 0..12, T tasks 1..3, latency per source call and per (task,item), optional exception '
             'in one task call or one source call, controller actions concurrency:=c (0..4) and stop() at drawn virtual '
@@ -221,7 +221,7 @@ def run(tape, prop, tier):
             actions = []
             if control_on:
                 for _ in range(tape.between(1, 4, 'nactions')):
-                    when = tape.choice((0.0, 0.005, 0.05, 0.3, 0.7, 1.2, 2.5, 4.0), 'act.when')
+                    when = tape.choice((0.0, 0.005, 0.05, 0.3, 0.7, 1.2, 2.5, 4.0, -1.0), 'act.when')    # -1: call_soon, i.e. after process() started but before the producer task's first step
                     kind = tape.draw(6, 'act.kind')      # 0..4 -> concurrency := kind ; 5 -> stop
                     actions.append((when, 'stop' if kind == 5 else kind))
             actions.sort(key=lambda a: a[0])
@@ -292,7 +292,11 @@ def run(tape, prop, tier):
             @asyncio.coroutine
             def main():
                 for when, kind in actions:
-                    loop.call_later(when, act, kind)
+                    if when < 0:
+                        loop.call_soon(act, kind)
+                        r.probes['action_before_first_producer_step'] += 1
+                    else:
+                        loop.call_later(when, act, kind)
                 try:
                     if app is not None:
                         outcome['exit'] = yield from app.run()
